@@ -646,8 +646,10 @@ def _fit_windows(
     windows['range', 0] = center - width / 2
     windows['range', 1] = np.nextafter(center.values + width.value / 2, np.inf)
 
-    windows = _clip_to_data_range(data, windows)
     _separate_from_neighbors_in_place(center, windows, fit_parameters)
+    # Clip last so that windows lie inside the data range even when a neighboring
+    # estimate (and with it the separation bound) lies beyond the data.
+    windows = _clip_to_data_range(data, windows)
 
     return windows
 
